@@ -17,7 +17,7 @@ REQUIRED = ["entries_injective", "einv_fresh", "bit_set_get", "bit_total", "serv
             "foreign_prefix_witness", "issuer_only_stmt_false", "issuer_only_partial", "nuts_validators_enforce_prefix",
             "credential_never_panics", "revoked_forever_local", "revoke_effective", "revoked_forever_remote", "refresh_after_revocation_pins",
             "cache_sound", "status_only_from_named_list", "update_refuses_other_list", "fact_bitstring_arithmetic", "fact_constants",
-            "fact_env_ok", "fact_entry_structure", "fact_revoke_and_credential_structure", "fact_status_verifier_structure",
+            "fact_env_ok", "fact_status_list_url", "fact_entry_structure", "fact_revoke_and_credential_structure", "fact_status_verifier_structure",
             "fact_register_and_verify_order"]
 
 ENTRY_RE = re.compile(r"(n\d+/\S+/\d+) (\d+) wf=(\w+)")
@@ -60,8 +60,27 @@ def oracle(ctx, ops, impl, max_index, min_left_min):
             h = op["host"]
             if h["kind"] in ("ok", "noexp"):
                 hosted_valid.setdefault(h["url"], set()).update(h.get("bits") or [])
-        elif kind in ("entry", "race", "par"):
-            for m in ENTRY_RE.finditer(line):
+        elif kind in ("entry", "race", "par", "mix"):
+            if kind == "mix":
+                stats["concurrent-mixes"] += 1
+                if "mid=ok" not in line:
+                    report("C11:list-served-during-concurrent-revocation-invalid-or-not-monotone", line[-300:], i)
+                for m in re.finditer(r"(n\d+/[^ /]+/\d+)#(\d+):([a-z:-]+)", line):
+                    k2 = (node, m.group(1))
+                    if m.group(3) == "ok":
+                        if int(m.group(2)) in revoked.get(k2, set()):
+                            report("C11:revoke-accepted-twice", f"{m.group(1)}#{m.group(2)}", i)
+                        revoked.setdefault(k2, set()).add(int(m.group(2)))
+                    elif m.group(3) == "revoked":
+                        stats["re-revocations"] += 1
+                    else:
+                        report("C11:revoke-of-issued-entry-failed-under-concurrency", m.group(0), i)
+                for m in re.finditer(r"(n\d+/[^ /=]+/\d+)=\[([0-9,]*)\]", line.split("after=")[1]):
+                    bits = set(int(x) for x in m.group(2).split(",") if x)
+                    if bits != revoked.get((node, m.group(1)), set()):
+                        report("C11:served-bits-differ-from-revocations", f"{m.group(1)}: served {sorted(bits)} revoked {sorted(revoked.get((node, m.group(1)), set()))}", i)
+                    served[(node, m.group(1))] = bits
+            for m in ENTRY_RE.finditer(line.split(" revokes=")[0]):
                 stats["entries"] += 1
                 key = (node, m.group(1), int(m.group(2)))
                 if key in issued:
